@@ -59,3 +59,25 @@ PLANS["C03"] = attr_plan("C03", [("url", 2, 3)])
 PLANS["C10"] = attr_plan("C10", [("style", 2, 3)])
 PLANS["C11"] = attr_plan("C11", [("link", 3, 4)])
 PLANS["C12"] = attr_plan("C12", [("forced", 3, 4), ("url", 1, 2)])
+
+
+def conf_plan(prop, fams, kinds):
+    def run(ctx, tier):
+        props = [prop]
+        q = tier == "quick"
+        ctx.mc_replay("conf-hist", "MC_Loop.tla", "MC_Loop_hist.cfg", "fam_conf.json", props, variants=1 if prop == "C07" else 2,
+                      consts={"MaxLen": 3 if q else 4}, timeout=3000)
+        for fam, mq, mt in fams:
+            ctx.mc_replay(fam, "MC_Attrs.tla", "MC_Attrs.cfg", "fam_%s.json" % fam, props, variants=1 if prop == "C07" else 2,
+                          consts={"MaxAttrs": mq if q else mt}, replaycmd="replayattrs", timeout=3000)
+        ctx.trace("sessions", props, sessions=80 if q else 800, calls=25 if q else 40, kinds=kinds, check_attrs=True, timeout=3000)
+        return dict(rule=("TLC checks I07/I20 (BM_Props) on every history of fam_conf up to MaxLen and I07attrs/AnyOf/I20attrs on every "
+                          "attribute list of the attribute families; every case is replayed (canonical serialisation for C07) and the "
+                          "oracle (byte equality modulo forced attributes / Sanitize twice) evaluated on the real code; random sessions with "
+                          "documents generated from the policy's own vocabulary are trace-validated. non-trivial = output differs from input"),
+                    exhaustive=False, assumptions=ASSUME_COMMON)
+    return run
+
+
+PLANS["C07"] = conf_plan("C07", [("allow", 2, 3), ("url", 1, 2), ("link", 2, 3)], "7,7,7,7,0,6")
+PLANS["C20"] = conf_plan("C20", [("link", 2, 3), ("allow", 2, 3), ("style", 1, 2), ("forced", 2, 3)], "0,1,3,4,6,7")
